@@ -16,6 +16,9 @@ pub(super) struct ColReaderInfo {
     pub(super) reads_since_persist: u32,
     // Ensure we only hydrate from persisted index once per process per column
     pub(super) hydrated_from_index: bool,
+    // Ticket for cursor commits: taken under this lock together with the position, so that
+    // the index (updated after the lock is released) can drop a commit that was overtaken.
+    pub(super) commit_seq: u64,
 }
 
 pub(super) struct Reader {
@@ -79,6 +82,7 @@ impl Reader {
                         tail_offset: 0,
                         reads_since_persist: 0,
                         hydrated_from_index: false,
+                        commit_seq: 0,
                     }))
                 })
                 .clone()
